@@ -270,7 +270,7 @@ def opspecs(form, fields):
                 # SBFM/BFM/UBFM: plain fields (the ImmBFM attribute of the database only states the range 0..size-1)
                 spec = "(.immU %s 1)" % q(d[1:])
                 used.add(d[1:])
-            elif re.fullmatch(r"#([A-Za-z_0-9]+)", d) and d[1:] in fnames and not imm_attr and d[1:] not in ("n", "sysreg"):
+            elif re.fullmatch(r"#([A-Za-z_0-9]+)", d) and d[1:] in fnames and not imm_attr and (d[1:] not in ("n", "sysreg") or (d == "#sysreg" and any(f[0] == "sysreg" and f[1][0][2] == 16 for f in fields))):
                 fld = d[1:]
                 if fld.endswith("S") and fld.startswith("imm"):
                     spec = "(.immS %s)" % q(fld)
@@ -362,12 +362,21 @@ def collect_forms(repo):
     res = []
     for f in forms:
         names = [f["name"]]
-        if f["name"] == "b.<cond>":
-            names = ["b"]
+        if f["name"] in ("b.<cond>", "bc.<cond>"):
+            names = [f["name"].split(".")[0]]
         try:
             mask, value, fields = parse_template(f["opcodeString"], f["fields"])
         except TranslateError:
             raise
+        # MRS / MSR (register): the operand is AsmJit's 16-bit system register id op0:op1:CRn:CRm:op2 (a64globals.h SysReg::encode).
+        # The template gives op0<1> as a fixed 1 right above the 15-bit `sysreg` field; widen the field over that bit so that the id
+        # is compared as a whole
+        if any(o["data"] == "#sysreg" for o in f["ops"]):
+            for k, (fname, pieces) in enumerate(fields):
+                if fname == "sysreg" and len(pieces) == 1 and pieces[0][2] == 15:
+                    top = pieces[0][0] + 15
+                    if (mask >> top) & 1 and (value >> top) & 1:
+                        fields[k] = (fname, [(pieces[0][0], 0, 16)])
         specs, free, srcs = opspecs(f, fields)
         if "_new_value" in f:
             value = f["_new_value"] & mask
@@ -378,7 +387,7 @@ def collect_forms(repo):
         for n in names:
             res.append({"name": n, "mask": mask, "value": value, "fields": fields, "ops": specs, "free": free, "opsrc": srcs,
                         "t": f.get("t", ""), "ta": f.get("ta", ""), "tb": f.get("tb", ""), "tatb": f.get("tatb", ""),
-                        "cond": f["name"] == "b.<cond>", "key": [f.get("_orig_name", f["name"]), f.get("_orig_ops", [o["data"] for o in f["ops"]]), f.get("_orig_op", f["opcodeString"])],
+                        "cond": f["name"] in ("b.<cond>", "bc.<cond>"), "key": [f.get("_orig_name", f["name"]), f.get("_orig_ops", [o["data"] for o in f["ops"]]), f.get("_orig_op", f["opcodeString"])],
                         "src": "%s %s" % (f["name"], ", ".join(o["data"] for o in f["ops"]))})
     return res, applied
 
@@ -449,7 +458,9 @@ def source_features(repo):
             "srcIndexTailChecksWIndex": int("RegType::kGp32" in tail and "B(13)" in tail),
             "srcMatchWideNarrow": int("match_wide_narrow" in src),
             # fixes/C02-16.patch: movi/mvni with 64-bit elements look at the second immediate (the original reads operand 0 as an immediate)
-            "srcMoviChecksShiftOperand": int("o2.is_imm() && (o2.as<Imm>().value() != 0" in src)}
+            "srcMoviChecksShiftOperand": int("o2.is_imm() && (o2.as<Imm>().value() != 0" in src),
+            # fixes/C02-17.patch: a condition code is also allowed with BC.<cond> (the original gate only lets `b` through)
+            "srcBcAcceptsCond": int("inst_id != Inst::kIdB && inst_id != Inst::kIdBc" in src)}
 
 
 def render_tables(insts, rows, consts, encids):
